@@ -59,6 +59,7 @@ def run(ctx):
                     "calculator.py:CijPressureBaseModulusInterface.__getitem__", "qha_adapter.py:QHACalculator.desired_pressure_status",
                     "qha_adapter.py:QHAPressureBaseInterface.p_array", "qha_adapter.py:QHAPressureBaseInterface.volumes"])
     ctx.require("v2p_calls_judged", 30)
+    ctx.require("v2p_input_fields_checked", 10)
     ctx.require("range_refusals_observed", 3)
     ctx.require("range_acceptances_observed", 3)
 
@@ -139,14 +140,16 @@ def _conversions(ctx, e2e):
                     ctx.harness_error("C06.getter", exc)
                 continue
             calls = e2e.obs["v2p"][before:]
-            if len(calls) != 1:
-                ctx.inconc(f"{nm}: {len(calls)} v2p events observed for one read")
-                continue
-            fin, fout = calls[0]
             qcls = "modulus" if nm[0] == "c" and nm[1].isdigit() else "compliance" if nm[0] == "s" and nm[1].isdigit() else nm.split("(")[0]
-            if not numpy.array_equal(fin, f_tv, equal_nan=True):
-                ctx.violation(f"wrong-input-field:{qcls}", f"{nm}: the field handed to the conversion is not the volume-base {nm}", case_id, sample)
-                continue
+            if len(calls) == 1:
+                fin, fout = calls[0]
+                ctx.count("v2p_input_fields_checked")
+                if not numpy.array_equal(fin, f_tv, equal_nan=True):
+                    ctx.violation(f"wrong-input-field:{qcls}", f"{nm}: the field handed to the conversion is not the volume-base {nm}", case_id, sample)
+                    continue
+            else:
+                # no conversion observed for this read (a memoised table) or several: the value is still judged below
+                ctx.count("reads_with_%d_v2p_events" % len(calls))
             if got.shape != (nt, len(desired)):
                 ctx.violation(f"shape:{qcls}", f"{nm}: shape {got.shape}, expected {(nt, len(desired))}", case_id, sample)
                 continue
